@@ -10,6 +10,9 @@ if not os.path.isfile(arg):
     import extract
     arg = os.path.join(extract.ensure_facts(['default'])['default'], arg + '.json')
 d = json.load(open(arg))
+if '--raw' not in sys.argv and not os.environ.get("VERIF_NO_NORM"):
+    import norm
+    norm.normalise_crate(os.path.basename(arg)[:-5], d)
 pat = sys.argv[2]
 for b in d['bodies']:
     if pat in b['path']:
